@@ -2,7 +2,7 @@
 (***************************************************************************************)
 (* tools/attest: the guest-side command line around client.GetRawQuote / GetQuote (not   *)
 (* one of the listed properties; the last package the specification had not covered).    *)
-(*   ParseInput -> CheckOutform -> OpenOutput -> GetQuote -> Write                       *)
+(*   ParseFlags -> ParseInput -> CheckOutform -> OpenOutput -> GetQuote -> Write         *)
 (* -in is the REPORT_DATA: empty (all zero), or at most 64 bytes in hex or base64;       *)
 (* -inform auto tries base64 first and hex second.  The output file is created only once *)
 (* the input and -outform have been accepted; any failure exits with status 1 after one  *)
@@ -18,6 +18,9 @@ Ins == {"empty", "hex64", "hex5", "hex4", "hex65", "hexOdd", "hexSpaced", "b64of
 Informs == {"auto", "hex", "base64", "bogus"}
 Outforms == {"bin", "textproto", "bogus"}
 Outs == {"stdout", "file", "dirMissing"}
+Flags == {"plain", "verbose", "positional", "unknownFlag", "badValue"}
+\*   verbose: -v -verbosity=2;  positional: a stray argument after the flags (ignored);  unknownFlag: a flag nobody defined;  badValue: -verbosity=lots.
+\*   The last two are refused by the flag package before the tool looks at anything: usage text, exit status 2.
 
 IsHex(i) == i \in {"hex64", "hex5", "hex4", "hexSpaced"}
 IsB64(i) == i \in {"b64of64", "b64of10", "hex4"}
@@ -29,24 +32,26 @@ InputAccepted(i, f) == \/ i = "empty"                                   \* nothi
                        \/ (f = "base64" /\ IsB64(i))
                        \/ (f = "auto" /\ (IsHex(i) \/ IsB64(i)))
 
-VARIABLES in, inform, outform, out, pc, exit, created
-vars == <<in, inform, outform, out, pc, exit, created>>
-Init == /\ in \in Ins /\ inform \in Informs /\ outform \in Outforms /\ out \in Outs
-        /\ pc = "parse" /\ exit = -1 /\ created = FALSE
+VARIABLES in, inform, outform, out, flags, pc, exit, created
+vars == <<in, inform, outform, out, flags, pc, exit, created>>
+Init == /\ in \in Ins /\ inform \in Informs /\ outform \in Outforms /\ out \in Outs /\ flags \in Flags
+        /\ pc = "flags" /\ exit = -1 /\ created = FALSE
 Die == exit' = 1 /\ pc' = "done"
-ParseInput   == /\ pc = "parse" /\ (IF InputAccepted(in, inform) THEN pc' = "outform" /\ exit' = exit ELSE Die) /\ UNCHANGED <<in, inform, outform, out, created>>
-CheckOutform == /\ pc = "outform" /\ (IF outform # "bogus" THEN pc' = "open" /\ exit' = exit ELSE Die) /\ UNCHANGED <<in, inform, outform, out, created>>
+FlagsRefused == flags \in {"unknownFlag", "badValue"}
+ParseFlags   == /\ pc = "flags" /\ (IF FlagsRefused THEN exit' = 2 /\ pc' = "done" ELSE pc' = "parse" /\ exit' = exit) /\ UNCHANGED <<in, inform, outform, out, flags, created>>
+ParseInput   == /\ pc = "parse" /\ (IF InputAccepted(in, inform) THEN pc' = "outform" /\ exit' = exit ELSE Die) /\ UNCHANGED <<in, inform, outform, out, flags, created>>
+CheckOutform == /\ pc = "outform" /\ (IF outform # "bogus" THEN pc' = "open" /\ exit' = exit ELSE Die) /\ UNCHANGED <<in, inform, outform, out, flags, created>>
 OpenOutput   == /\ pc = "open"
                 /\ IF out = "dirMissing" THEN Die /\ created' = created
                    ELSE pc' = "quote" /\ exit' = exit /\ created' = (out = "file")
-                /\ UNCHANGED <<in, inform, outform, out>>
-GetQuote     == /\ pc = "quote" /\ Die /\ UNCHANGED <<in, inform, outform, out, created>>      \* no device, no configfs-tsm here
-Next == ParseInput \/ CheckOutform \/ OpenOutput \/ GetQuote
+                /\ UNCHANGED <<in, inform, outform, out, flags>>
+GetQuote     == /\ pc = "quote" /\ Die /\ UNCHANGED <<in, inform, outform, out, flags, created>>      \* no device, no configfs-tsm here
+Next == ParseFlags \/ ParseInput \/ CheckOutform \/ OpenOutput \/ GetQuote
 Spec == Init /\ [][Next]_vars
 
 Done == pc = "done"
-TypeOK == exit \in {-1, 1}
+TypeOK == exit \in {-1, 1, 2} /\ (exit = 2 <=> (Done /\ FlagsRefused))
 \* a run that is refused for its arguments leaves nothing behind
-NothingCreatedOnUsageError == (Done /\ (~InputAccepted(in, inform) \/ outform = "bogus")) => ~created
+NothingCreatedOnUsageError == (Done /\ (FlagsRefused \/ ~InputAccepted(in, inform) \/ outform = "bogus")) => ~created
 CreatedOnlyForFile == created => out = "file"
 =================================================================================
